@@ -173,6 +173,182 @@ def private_callee(repo, rel, func, call, cls=None):
     return None
 
 
+def _single_exit(body):
+    """`…; if c: A; return x` + `B; return y`  ->  `…; if c: A; r = x else:
+    B; r = y` + `return r` (one early return in a top-level `if` without
+    else; both returns carry a value) – same paths, one exit"""
+    rets = [n for b in body for n in walk(b) if isinstance(n, ast.Return)]
+    if len(rets) != 2 or not body or rets[1] is not body[-1]:
+        return body
+    for i, st in enumerate(body[:-1]):
+        if isinstance(st, ast.If) and not st.orelse and st.body \
+                and st.body[-1] is rets[0] and rets[0].value is not None \
+                and rets[1].value is not None:
+            res = "ret__h"
+
+            def asg(v, at):
+                return ast.copy_location(ast.Assign(
+                    targets=[ast.Name(id=res, ctx=ast.Store())],
+                    value=clone(v)), at)
+            new_if = ast.copy_location(ast.If(
+                test=clone(st.test),
+                body=[clone(x) for x in st.body[:-1]] + [
+                    asg(rets[0].value, rets[0])],
+                orelse=[clone(x) for x in body[i + 1:-1]] + [
+                    asg(rets[1].value, rets[1])]), st)
+            tail = ast.copy_location(ast.Return(
+                value=ast.Name(id=res, ctx=ast.Load())), rets[1])
+            out = [clone(x) for x in body[:i]] + [new_if, tail]
+            for x in out:
+                ast.fix_missing_locations(x)
+                relink(x, None)
+            return out
+    return body
+
+
+def _record_fields(repo, rel, ctor):
+    """field names of a NamedTuple class / namedtuple() visible in `rel`"""
+    if not isinstance(ctor, ast.Name):
+        return None
+    for c in repo.tree(rel).body:
+        if isinstance(c, ast.ClassDef) and c.name == ctor.id and any(
+                txt(b).split(".")[-1] == "NamedTuple" for b in c.bases):
+            return [x.target.id for x in c.body
+                    if isinstance(x, ast.AnnAssign)
+                    and isinstance(x.target, ast.Name)]
+    v = module_value(repo, rel, ctor.id)
+    if isinstance(v, ast.Call) and txt(v.func).split(".")[-1] \
+            == "namedtuple" and len(v.args) == 2:
+        f = v.args[1]
+        if isinstance(f, (ast.List, ast.Tuple)):
+            return [e.value for e in f.elts if isinstance(e, ast.Constant)]
+        if isinstance(f, ast.Constant) and isinstance(f.value, str):
+            return f.value.replace(",", " ").split()
+    return None
+
+
+def scalarise_records(repo, rel, func):
+    """Locals that only ever hold a record (NamedTuple / namedtuple built by
+    its constructor, or a copy of such a local) and are only read through
+    `r.field`, tuple unpacking `a, b = r` or copied, are replaced by one
+    local per field (`r__field`).  Returns `func` itself when there is
+    nothing to do or a use is not of these kinds."""
+    defs = {}
+    for n in walk(func):
+        if isinstance(n, ast.Assign) and len(n.targets) == 1 \
+                and isinstance(n.targets[0], ast.Name):
+            defs.setdefault(n.targets[0].id, []).append(n)
+    fields = {}
+    changed = True
+    while changed:
+        changed = False
+        for nm, ds in defs.items():
+            if nm in fields:
+                continue
+            fl = None
+            ok = True
+            for d in ds:
+                v = d.value
+                if isinstance(v, ast.Call) and not any(
+                        isinstance(a, ast.Starred) for a in v.args):
+                    f = _record_fields(repo, rel, v.func)
+                elif isinstance(v, ast.Name) and v.id in fields:
+                    f = fields[v.id]
+                else:
+                    f = None
+                if not f or (fl is not None and f != fl):
+                    ok = False
+                    break
+                fl = f
+            if ok and fl:
+                fields[nm] = fl
+                changed = True
+    if not fields:
+        return func
+    # every use must be understood
+    for n in walk(func):
+        if isinstance(n, ast.Name) and n.id in fields and isinstance(
+                n.ctx, ast.Load):
+            par = n.parent
+            if isinstance(par, ast.Attribute) and par.value is n \
+                    and par.attr in fields[n.id]:
+                continue
+            if isinstance(par, ast.Assign) and par.value is n and len(
+                    par.targets) == 1:
+                t = par.targets[0]
+                if isinstance(t, ast.Name) and t.id in fields:
+                    continue
+                if isinstance(t, ast.Tuple) and len(t.elts) == len(
+                        fields[n.id]) and all(isinstance(e, ast.Name)
+                                              for e in t.elts):
+                    continue
+            return func
+    new = clone(func)
+    relink(new, getattr(func, "parent", None))
+
+    def fname(r, f):
+        return f"{r}__{f}"
+
+    def rewrite(stmts):
+        out = []
+        for st in stmts:
+            for fld in ("body", "orelse", "finalbody"):
+                if isinstance(getattr(st, fld, None), list) and not \
+                        isinstance(st, (ast.FunctionDef, ast.ClassDef)):
+                    setattr(st, fld, rewrite(getattr(st, fld)))
+            if isinstance(st, ast.Try):
+                for h in st.handlers:
+                    h.body = rewrite(h.body)
+            if isinstance(st, ast.Assign) and len(st.targets) == 1:
+                t, v = st.targets[0], st.value
+                if isinstance(t, ast.Name) and t.id in fields:
+                    fl = fields[t.id]
+                    if isinstance(v, ast.Call):
+                        vals = dict(zip(fl, v.args))
+                        vals.update({k.arg: k.value for k in v.keywords})
+                        if set(vals) != set(fl):
+                            raise AnalysisError(
+                                f"record `{t.id}`: constructor arguments")
+                        for f in fl:
+                            out.append(ast.copy_location(ast.Assign(
+                                targets=[ast.Name(id=fname(t.id, f),
+                                                  ctx=ast.Store())],
+                                value=vals[f]), st))
+                    else:
+                        for f in fl:
+                            out.append(ast.copy_location(ast.Assign(
+                                targets=[ast.Name(id=fname(t.id, f),
+                                                  ctx=ast.Store())],
+                                value=ast.Name(id=fname(v.id, f),
+                                               ctx=ast.Load())), st))
+                    continue
+                if isinstance(t, ast.Tuple) and isinstance(v, ast.Name) \
+                        and v.id in fields:
+                    for e, f in zip(t.elts, fields[v.id]):
+                        out.append(ast.copy_location(ast.Assign(
+                            targets=[e], value=ast.Name(
+                                id=fname(v.id, f), ctx=ast.Load())), st))
+                    continue
+            out.append(st)
+        return out
+    new.body = rewrite(new.body)
+
+    class A(ast.NodeTransformer):
+        def visit_Attribute(self, n):
+            self.generic_visit(n)
+            if isinstance(n.value, ast.Name) and n.value.id in fields \
+                    and n.attr in fields[n.value.id]:
+                return ast.copy_location(ast.Name(
+                    id=fname(n.value.id, n.attr), ctx=n.ctx), n)
+            return n
+    A().visit(new)
+    ast.fix_missing_locations(new)
+    relink(new, getattr(func, "parent", None))
+    if hasattr(func, "expanded_from"):
+        new.expanded_from = func.expanded_from
+    return new
+
+
 def _inline_body(st, callee, caller_names):
     call = st.value
     a = callee.args
@@ -224,6 +400,7 @@ def _inline_body(st, callee, caller_names):
     if any(isinstance(n, (ast.Yield, ast.YieldFrom)) for b in body
            for n in walk(b)):
         return None
+    body = _single_exit(body)
     rets = [n for b in body for n in walk(b) if isinstance(n, ast.Return)]
     tail = None
     if rets:
@@ -358,3 +535,86 @@ def expand_private_calls(repo, rel, func, keep=(), depth=2, cls=None):
     if cur is not func:
         cur.expanded_from = inlined
     return cur
+
+
+def propagate_copies(func):
+    """Locals whose every definition is a plain copy (`x = y`) of one and
+    the same root variable are replaced by that root, provided the root is
+    not re-bound after any of the copies (checked on the CFG); the copy
+    statements disappear.  Returns `func` itself when nothing applies."""
+    from .cfg import CFG
+    defs = {}
+    for n in walk(func):
+        if isinstance(n, ast.Assign):
+            for t in n.targets:
+                for x in ast.walk(t):
+                    if isinstance(x, ast.Name) and isinstance(
+                            x.ctx, ast.Store):
+                        defs.setdefault(x.id, []).append(n)
+        elif isinstance(n, (ast.AugAssign, ast.For, ast.comprehension,
+                            ast.NamedExpr)):
+            for x in ast.walk(n.target):
+                if isinstance(x, ast.Name):
+                    defs.setdefault(x.id, []).append(None)
+    params = {a.arg for a in func.args.args + func.args.kwonlyargs}
+
+    def root(name, seen=()):
+        if name in seen or name in params:
+            return name
+        ds = defs.get(name)
+        if not ds or any(d is None or len(d.targets) != 1
+                         or not isinstance(d.targets[0], ast.Name)
+                         or not isinstance(d.value, ast.Name) for d in ds):
+            return name
+        roots = {root(d.value.id, seen + (name,)) for d in ds}
+        return roots.pop() if len(roots) == 1 else name
+    mapping = {n: root(n) for n in defs}
+    mapping = {k: v for k, v in mapping.items() if k != v}
+    if not mapping:
+        return func
+    cfg = CFG(func)
+    for x, r in list(mapping.items()):
+        r_defs = {i for d in defs.get(r, []) if d is not None
+                  for i in cfg.ids_of(d)}
+        for d in defs[x]:
+            if r_defs & cfg.reach(cfg.ids_of(d)):
+                mapping.pop(x, None)
+                break
+    if not mapping:
+        return func
+    new = clone(func)
+
+    def strip(stmts):
+        out = []
+        for st in stmts:
+            for fld in ("body", "orelse", "finalbody"):
+                if isinstance(getattr(st, fld, None), list) and not \
+                        isinstance(st, (ast.FunctionDef, ast.ClassDef)):
+                    kept = strip(getattr(st, fld))
+                    setattr(st, fld, kept or (
+                        [ast.copy_location(ast.Pass(), st)]
+                        if fld == "body" else []))
+            if isinstance(st, ast.Try):
+                for h in st.handlers:
+                    h.body = strip(h.body) or [ast.copy_location(
+                        ast.Pass(), st)]
+            if isinstance(st, ast.Assign) and len(st.targets) == 1 \
+                    and isinstance(st.targets[0], ast.Name) \
+                    and st.targets[0].id in mapping:
+                continue
+            out.append(st)
+        return out
+    new.body = strip(new.body)
+
+    class T(ast.NodeTransformer):
+        def visit_Name(self, n):
+            if n.id in mapping and isinstance(n.ctx, ast.Load):
+                return ast.copy_location(ast.Name(id=mapping[n.id],
+                                                  ctx=ast.Load()), n)
+            return n
+    T().visit(new)
+    ast.fix_missing_locations(new)
+    relink(new, getattr(func, "parent", None))
+    if hasattr(func, "expanded_from"):
+        new.expanded_from = func.expanded_from
+    return new
